@@ -114,7 +114,11 @@ def run(chk: Check) -> None:
             if isinstance(n, ast.Subscript):
                 b = expand_path(n.value, al)
                 if b and len(b) == 2 and b[0] == me and b[1] in INDEXES:
-                    k = unparse(n.slice).replace(p, "$")
+                    ks = n.slice
+                    # a key held in a local bound once stands for what it was bound to
+                    if isinstance(ks, ast.Name) and ks.id in al and ks.id != p:
+                        ks = al[ks.id]
+                    k = unparse(ks).replace(p, "$")
                     out.add((b[1], k))
                     # what is known to hold where the index is touched (guards in any spelling)
                     cs = [c for c in flow.canonical_facts(n, {p: "$"}) if "isinstance" not in c]
